@@ -88,11 +88,12 @@ def strAtom : Atom → Str
   | .dt y mo d h mi sec =>
     pad4 y ++ ['-'] ++ pad2 mo ++ ['-'] ++ pad2 d ++ [' '] ++ pad2 h ++ [':'] ++ pad2 mi ++ [':'] ++ pad2 sec
 
-/-- `Constituent.quoteSource` : a string as a double-quoted Python literal (repair a4c65f5) -/
+/-- `Constituent.quoteSource` : a string as a double-quoted Python literal (repairs a4c65f5, 2b9e5f9) -/
 def quoteSrcBody : Str → Str
   | [] => []
   | c :: r =>
-    (if c = '\\' then ['\\', '\\'] else if c = '"' then ['\\', '"'] else if c = '\n' then ['\\', 'n'] else [c])
+    (if c = '\\' then ['\\', '\\'] else if c = '"' then ['\\', '"'] else if c = '\n' then ['\\', 'n']
+     else if c = '\r' then ['\\', 'r'] else if c = Char.ofNat 0 then ['\\', 'x', '0', '0'] else [c])
       ++ quoteSrcBody r
 
 def quoteSrc (x : Str) : Str := '"' :: quoteSrcBody x ++ ['"']
